@@ -24,11 +24,12 @@ import select
 import signal
 import struct
 import sys
+import time
 import tokenize
 from fractions import Fraction
 
 _U = {}
-LIMIT = float(os.environ.get("VERIF_C20_LIMIT", "6.0"))  # per-case wall-clock limit (seconds)
+LIMIT = float(os.environ.get("VERIF_C20_LIMIT", "6.0"))  # per-case limit: CPU seconds of the child
 VOCAB = {"Symbol", "Integer", "Float", "Rational", "sqrt"}
 DANGER = {
     "LOAD_ATTR", "LOAD_METHOD", "LOAD_SUPER_ATTR", "IMPORT_NAME", "IMPORT_FROM", "MAKE_FUNCTION", "STORE_NAME", "STORE_GLOBAL",
@@ -200,6 +201,9 @@ def _resolve(s, lut, inv, prefixes):
     return None
 
 
+# names whose scale is extreme (first: the plain numerator g) - the magnitude instance of MC_C20
+MAG_NAMES = ["g", "Mpc", "Gpc", "Gyr", "Ym", "ym", "amu", "eV", "km"]
+
 MC_SPELLINGS = [
     # (spelling, alternative spelling, kind)
     ("m", "meter", "plain"),
@@ -230,10 +234,12 @@ def build_tables(case):
 
     Unit = _U["Unit"]
     out = {}
-    for which in ("mc", "sweep"):
+    for which in ("mc", "sweep", "mag"):
         lut = dict(_U["reg"].lut)
         if which == "mc":
             strings = [a for a, _b, _k in MC_SPELLINGS] + [b for _a, b, _k in MC_SPELLINGS]
+        elif which == "mag":
+            strings = list(MAG_NAMES)
         else:
             from unyt._unit_lookup_table import default_unit_symbol_lut
 
@@ -286,6 +292,7 @@ def build_tables(case):
                     "off": repr(float(row[2])),
                     "kind": "custom" if custom else kinds.get(s, "plain" if f == 1.0 else "prefixed"),
                     "scale": repr(float(f) * float(row[0])),
+                    "lg": int(round(1000 * math.log10(abs(float(f) * float(row[0]))))) if float(f) * float(row[0]) != 0 else 0,
                     "custom": custom,
                 }
             )
@@ -338,7 +345,7 @@ def _proj(u, scale_ref):
     bv = float(u.base_value)
     sc = False
     if scale_ref is not None:
-        sc = (bv == scale_ref) or math.isclose(bv, scale_ref, rel_tol=1e-9, abs_tol=0.0)
+        sc = _same_scale(bv, float(scale_ref), 1e-9)
     return {"o": "Ok", "vec": vec, "coef": cj, "cf": cf, "exact": exact, "dim": _dimvec(u.dimensions), "off": repr(float(u.base_offset)), "sc": bool(sc)}
 
 
@@ -361,8 +368,18 @@ def _construct(s, reg):
 def _expected_scale(sem, names):
     x = float(Fraction(sem["coef"][0], sem["coef"][1]))
     for k, n, d in sem["vec"]:
-        x *= float(names[k - 1]["scale"]) ** (n / d)
+        try:
+            x *= float(names[k - 1]["scale"]) ** (n / d)
+        except OverflowError:
+            x *= math.inf
     return x
+
+
+def _same_scale(a, b, rel):
+    """float tolerance match; two infinities of one sign, two zeros and two NaNs count as the same scale."""
+    if math.isnan(a) or math.isnan(b):
+        return math.isnan(a) and math.isnan(b)
+    return a == b or math.isclose(a, b, rel_tol=rel, abs_tol=0.0)
 
 
 def _fill(sp, names):
@@ -448,7 +465,7 @@ def _observe_ast(case):
         if memo[text][1] is not None:
             units["sp%d" % (j + 1)] = memo[text][1]
     rt = []
-    srcs = [("sp1", units.get("sp1")), ("sp6", units.get("sp6"))]
+    srcs = [("sp1", units.get("sp1")), ("sp6", units.get("sp6"))] + [("sp%d" % j, units.get("sp%d" % j)) for j in range(7, len(case["sp"]) + 1)]
     try:
         base = _arith(a, names, reg, case["coefs"], case["exps"])
         srcs.append(("arith-none", base))
@@ -475,7 +492,7 @@ def _observe_ast(case):
             text, r = _reread(u, via, reg)
             rt.append({"src": src, "via": via, "text": text, "u": pu, "r": r, "micro": _micro_alias(u)})
     negscale = any(t > 10000 and float(names[t - 10001]["scale"]) < 0 for t in a)
-    return {"k": "ast", "a": a, "sem": case["sem"], "sp": sp, "rt": rt, "texts": texts, "negscale": negscale}
+    return {"k": "ast", "a": a, "st": case["st"], "sem": case["sem"], "sp": sp, "rt": rt, "texts": texts, "negscale": negscale}
 
 
 PRIM_OPS = {"*": "mul", "/": "div", "**": "pow", "(": "lp", ")": "rp", "-": "minus", "+": "plus", ",": "comma", ".": "dot", "[": "lb", "]": "rb", "=": "eq", ":": "colon"}
@@ -647,12 +664,17 @@ def _observe_persist(case):
     Unit = _U["Unit"]
     rk, form, ca, rt = case["rk"], case["f"], case["ca"], case["rt"]
     reg, S = _persist_registry(rk)
-    text = {"S": S, "S**2": S + "**2", "S/s": S + "/s", "kS": "k" + S}[form]
-    u = Unit(text, registry=reg)
+    text = {"S": S, "S**2": S + "**2", "S/s": S + "/s", "kS": "k" + S, "MS**14": "M" + S + "**14"}[form]
+    if form == "MS**14":
+        # a scale beyond the range of a double, built by unit arithmetic (the string route is judged on the total side)
+        half = Unit("M" + S, registry=reg) ** 7
+        u = half * half
+    else:
+        u = Unit(text, registry=reg)
     if ca == "array":
-        obj = unyt.unyt_array([1.0, 2.0], text, registry=reg)
+        obj = unyt.unyt_array([1.0, 2.0], u)
     elif ca == "quantity":
-        obj = unyt.unyt_quantity(3.0, text, registry=reg)
+        obj = unyt.unyt_quantity(3.0, u)
     else:
         obj = u
     w = {"dim": _dimvec(u.dimensions), "off": repr(float(u.base_offset)), "text": ascii(str(u))}
@@ -660,6 +682,8 @@ def _observe_persist(case):
         stock = float(Unit(text, registry=_U["UnitRegistry"]()).base_value)
     except Exception:  # noqa: BLE001 - user symbols have no stock reading
         stock = None
+    if form == "MS**14":
+        stock = None  # every reading overflows: "written" and "stock" cannot be told apart
     exc = ""
     try:
         if rt.startswith("pickle"):
@@ -692,7 +716,7 @@ def _observe_persist(case):
 
 def _which(v, v2, u, stock):
     def close(a, b):
-        return a == b or math.isclose(a, b, rel_tol=1e-12, abs_tol=0.0)
+        return _same_scale(a, b, 1e-12)
 
     a, b, want = float(v.base_value), float(v2.base_value), float(u.base_value)
     if close(a, want) and close(b, want):
@@ -716,6 +740,18 @@ def _inner(case):
 # per-case wall-clock limit: forked child, killed on timeout
 # ----------------------------------------------------------------------------
 _child = {}
+WALL_CAP = 60 * LIMIT
+_TICK = os.sysconf("SC_CLK_TCK")
+
+
+def _cpu(pid):
+    """CPU seconds (user + system) consumed so far by process pid."""
+    try:
+        with open("/proc/%d/stat" % pid) as f:
+            parts = f.read().rsplit(")", 1)[1].split()
+        return (int(parts[11]) + int(parts[12])) / _TICK
+    except Exception:  # noqa: BLE001
+        return 0.0
 
 
 def _send(fd, obj):
@@ -789,7 +825,7 @@ def _kill():
 def _hang(case):
     if case["k"] == "ast":
         n = len(case["sp"])
-        return {"k": "ast", "a": case["a"], "sem": case["sem"], "sp": [_fail("Hang") for _ in range(n)], "rt": [], "texts": [], "negscale": False}
+        return {"k": "ast", "a": case["a"], "st": case["st"], "sem": case["sem"], "sp": [_fail("Hang") for _ in range(n)], "rt": [], "texts": [], "negscale": False}
     if case["k"] == "persist":
         return {"k": "persist", "rk": case["rk"], "f": case["f"], "ca": case["ca"], "rt": case["rt"], "w": {"dim": [], "off": "", "text": ""},
                 "r": {"o": "Hang", "dim": [], "off": "", "sc": "", "text": ""}, "exc": "Hang"}
@@ -811,11 +847,17 @@ def observe(case):
         _spawn()
     try:
         _send(_child["w"], case)
-        ready, _, _ = select.select([_child["r"]], [], [], LIMIT)
-        if not ready:
-            _kill()
-            return _hang(case)
-        return _recv(_child["r"])
+        # the limit is on the CPU time the child spends on this case (a loaded machine must not turn a
+        # trivial parse into a "Hang"); a generous wall-clock cap guards against a child blocked off-CPU
+        cpu0 = _cpu(_child["pid"])
+        t0 = time.time()
+        while True:
+            ready, _, _ = select.select([_child["r"]], [], [], 0.5)
+            if ready:
+                return _recv(_child["r"])
+            if _cpu(_child["pid"]) - cpu0 >= LIMIT or time.time() - t0 > WALL_CAP:
+                _kill()
+                return _hang(case)
     except (EOFError, OSError, struct.error):
         # the child died (e.g. killed by the kernel): report as a hang-like outcome of this case
         _kill()
